@@ -1825,8 +1825,6 @@ class InventoryTreeTransform(DiskTreeTransform):
             except BaseException:
                 mover.rollback()
                 raise
-            else:
-                mover.apply_deletions()
         from bzrformats.inventory_delta import InventoryDelta
 
         if self.final_file_id(self.root) is None:
@@ -1835,6 +1833,9 @@ class InventoryTreeTransform(DiskTreeTransform):
             inventory_delta = InventoryDelta(list(inventory_delta))
         self._tree.apply_inventory_delta(inventory_delta)
         self._apply_observed_sha1s()
+        # Discard replaced content only once the metadata describes the new
+        # layout, so that a failure here cannot leave the inventory behind.
+        mover.apply_deletions()
         self._done = True
         self.finalize()
         return _TransformResults(modified_paths, self.rename_count)
